@@ -814,6 +814,8 @@ def run_once(sc):
                 v = session.advance_sequence(drv, op["n"])
                 if v is not None:
                     for c in env.entry.connections.values():
+                        if "/B." in str(c.opened_op or ""):
+                            continue        # the connection of the second driver: its counter was not touched
                         c.last_seq = v
                         c.cached = None
                 shape.append(("seq_advance",))
